@@ -9,6 +9,7 @@ import SaModel.Lemmas.C08NotWalkable
 import SaModel.Lemmas.C08SAgree
 import SaModel.Lemmas.C08GConv
 import SaModel.Lemmas.C08Class
+import SaModel.Lemmas.C08Local
 /-
 C08 — tracing yields the documented mapping; from_type and from_samples agree.
 Model: SaModel/Trace/{Tracer,FromSamples,FromType}.lean.  Documented mapping: SaModel/Trace/Mapping.lean (`Spec.mapping`,
@@ -16,7 +17,8 @@ Model: SaModel/Trace/{Tracer,FromSamples,FromType}.lean.  Documented mapping: Sa
 
 Proved for ALL inputs:
 * the overwrite rule on the tracer (`C08_overwrite_replaces`, `C08_overwrite_name_mismatch`, `C08_overwrite_unknown_path`)
-  and on the documented mapping (`C08_mapping_overwrite`); `C08_mapping_name`; `C08_options_local_*`;
+  and on the documented mapping (`C08_mapping_overwrite`); locality: `C08_overwrite_local` (a subtree without a node at
+  the path keeps its field), `C08_overwrite_at` (the node at the path becomes the overwrite), `C08_mapping_lookups`; `C08_mapping_name`; `C08_options_local_*`;
 * `explore_complete_spec`: one pass over any enum-free type from a fresh node is complete and its field is the
   documented mapping (error iff the type cannot be walked);
 * `C08_pass_invariant`, `C08_complete_iff`, `C08_loop`: the multi-pass loop for enums (after `k` passes the tracer is
@@ -188,6 +190,36 @@ theorem C08_mapping_overwrite (o : Options) : ∀ (ty : Ty) (name path : String)
   | .bytes, _, _, _, _, _, h | .vec _, _, _, _, _, _, h | .tuple _, _, _, _, _, _, h | .tupleStruct _ _, _, _, _, _, _, h
   | .map _ _, _, _, _, _, _, h | .struct _ _, _, _, _, _, _, h | .enum _ _, _, _, _, _, _, h => by
     simp only [mapping, overwritten, h]
+
+/-- `C08_overwrite_local`: an overwrite replaces EXACTLY the field at its path.  Registering `overwrite(pth, f)` does not
+change the documented field of any subtree that has no node at that path (`"$." ++ pth ∉ tyPaths path ty`: siblings,
+cousins, everything that is not an ancestor of the node) — for every type, position and option record … -/
+theorem C08_overwrite_local (o : Options) (pth : String) (f : Field) (ty : Ty) (name path : String) (nl : Bool)
+    (hk : "$." ++ pth ∉ tyPaths path ty) :
+    mapping (o.overwrite pth f) name path nl ty = mapping o name path nl ty :=
+  mapping_overwrite_foreign o pth f ty name path nl hk
+
+/-- … while the node AT that path becomes the overwrite field as given (or the name error), whatever was registered
+before (`TracingOptions::overwrite` replaces an earlier entry for the same path); an ancestor is rebuilt from its
+children, of which only the one on the way to the path changes -/
+theorem C08_overwrite_at (o : Options) (pth : String) (f : Field) (ty : Ty) (name : String) (nl : Bool) :
+    mapping (o.overwrite pth f) name ("$." ++ pth) nl ty =
+      if f.name = name then .ok f else fail "overwrite with a different name" :=
+  C08_mapping_overwrite (o.overwrite pth f) ty name ("$." ++ pth) nl ("$." ++ pth) f (by
+    rw [overwrite_find]; simp only [if_true])
+
+/-- the mapping of a type reads the overwrite table only at the paths of its own tree -/
+theorem C08_mapping_lookups (o : Options) (ows' : List (String × Field)) (ty : Ty) (name path : String) (nl : Bool)
+    (h : ∀ q ∈ tyPaths path ty, ows'.find? (fun kv => kv.1 = q) = o.overwrites.find? (fun kv => kv.1 = q)) :
+    mapping { o with overwrites := ows' } name path nl ty = mapping o name path nl ty :=
+  mapping_lookups o ows' ty name path nl h
+
+/-- non-vacuity: in `struct S { a: Vec<String>, e: enum E { A(i32), B { x: bool } } }` the path `$.e.B.x` is not a path
+of the subtree `a` nor of the variant `A`, and it is a path of `e` -/
+example :
+    let e : Ty := .enum "E" (.newtype "A" (.int .i32) (.struct "B" (.cons "x" .bool .nil) .nil))
+    "$." ++ "e.B.x" ∉ tyPaths "$.a" (.vec .string) ∧ "$." ++ "e.B.x" ∉ tyPaths "$.e.A" (.int .i32) ∧
+      "$." ++ "e.B.x" ∈ tyPaths "$.e" e := by decide
 
 /-! ### every option changes precisely its aspect -/
 
